@@ -216,6 +216,77 @@ def corpus(ctx):
                 ctx.violation("failing-input", "corpus: small magnitudes lose their significant digits", {"qref": q, "assignments_in_order": [["N", n]]}, v, float(exp))
 
 
+def gen_fexpr(rng, syms, depth):
+    """function-heavy expressions: nested calls of the same user function are the norm"""
+    if depth <= 0 or rng.random() < 0.2:
+        return E.sym(rng.choice(syms)) if rng.random() < 0.7 else E.num(rng.randint(1, 4))
+    r = rng.random()
+    if r < 0.5:
+        return E.app(rng.choice(["f", "f", "g"]), gen_fexpr(rng, syms, depth - 1))
+    if r < 0.6:
+        return E.app("h", gen_fexpr(rng, syms, depth - 1), gen_fexpr(rng, syms, depth - 1))
+    return E.bin_(rng.choice(["+", "*", "-"]), gen_fexpr(rng, syms, depth - 1), gen_fexpr(rng, syms, depth - 1))
+
+
+def functions_stream(ctx):
+    """functions_map must reach EVERY call of the named function: nested in itself, nested across the hierarchy
+    (a parent hands f(N) to a child that computes f(n)), inside other functions, in ports and resources."""
+    rng = ctx.rng
+    impls = {"f": (lambda x: x * x + 1), "g": (lambda x: 2 * x + 3), "h": (lambda x, y: x + 2 * y)}
+    for i in range(ctx.n(120, 2500)):
+        t_child = gen_fexpr(rng, ["n", "k"], 3)
+        t_loc = gen_fexpr(rng, ["N"], 2)
+        t_root = gen_fexpr(rng, ["N", "M"], 3)
+        q = {"name": "root", "input_params": ["N", "M"], "local_variables": {"v": E.to_str(t_loc)},
+             "linked_params": [{"source": "v", "targets": ["a.n"]}, {"source": "M", "targets": ["a.k"]}],
+             "resources": [{"name": "T", "type": "additive", "value": E.to_str(t_root)}],
+             "children": [{"name": "a", "input_params": ["n", "k"], "resources": [{"name": "U", "type": "other", "value": E.to_str(t_child)}]}]}
+        st, r = try_compile(q)
+        ctx.stats["evaluations"] += 1
+        if st != "ok":
+            ctx.stats["functions_stream_compile_" + st] += 1
+            continue
+        which = rng.choice([["f"], ["g"], ["f", "g"], ["g", "f"], ["f", "g", "h"]])
+        fmap = {k: impls[k] for k in which}
+        asg = rng.choice([{}, {"N": rng.randint(1, 4)}, {"N": rng.randint(1, 4), "M": rng.randint(1, 4)}])
+        try:
+            ev = evaluate(r.routine, asg, functions_map=fmap).routine
+        except Exception as e:
+            ctx.stats["functions_stream_raised_" + type(e).__name__] += 1
+            continue
+        ctx.stats["functions_stream_cases"] += 1
+        funcs = {k: (lambda *xs, _f=impls[k]: _f(*xs)) for k in which}
+        nested = False
+        for (path, a), (_, b) in zip(walk(r.routine), walk(ev)):
+            for (kk, x), (_, y) in zip(exprs(a), exprs(b)):
+                left = E.sympy_heads(y) & set(which)
+                if left:
+                    ctx.violation("failing-input", f"a call of {sorted(left)} remains in {kk[0]} {'.'.join(path) or 'root'}.{kk[1]} after evaluate with functions_map",
+                                  {"qref": q, "assignments_in_order": list(asg.items()), "functions_map": which}, str(y), "no call left")
+                    return
+                for _ in range(2):
+                    rho = {n: Fraction(rng.randint(1, 5)) for n in ("N", "M")}
+                    rho.update({k: Fraction(v) for k, v in asg.items()})
+                    salt = rng.randint(0, 10**6)
+                    try:
+                        exp = E.sympy_ev(x, dict(rho), salt, funcs=funcs)
+                        got = E.sympy_ev(y, dict(rho), salt)
+                    except (E.Undefined, OverflowError, KeyError):
+                        continue
+                    if not compare.close(got, exp, True):
+                        ctx.violation("failing-input", f"user implementation of {which} not applied to every call in {kk[0]} {'.'.join(path) or 'root'}.{kk[1]}",
+                                      {"qref": q, "assignments_in_order": list(asg.items()), "functions_map": which}, {"evaluated": str(y), "value": got}, exp)
+                        return
+                sx = str(x)
+                if "f(f(" in sx.replace(" ", "") or sx.count("f(") >= 2:
+                    nested = True
+        if nested:
+            ctx.nontrivial(("functions", i))
+            ctx.stats["functions_stream_nested_calls"] += 1
+        if i % 60 == 0:
+            ctx.sample({"functions_stream": q, "functions_map": which, "assignment": asg})
+
+
 def run(ctx, widen=False):
     n = ctx.n(300, 8000) * (3 if widen else 1)
     ctx.notes.append(PARTIAL_NOTE)
@@ -224,6 +295,7 @@ def run(ctx, widen=False):
                 "mentioning another key, or a split, or a functions_map entry; distinct seeds")
     base = ctx.seed * 1000003 + 5500000
     pipeline.run_stream(ctx, __name__, range(base, base + n), use_model=False)
+    functions_stream(ctx)
     corpus(ctx)
 
 
@@ -232,7 +304,10 @@ def replay(payload):
     st, r = try_compile(inp["qref"])
     print("compile:", st, "| recorded:", payload.get("what"))
     if st == "ok" and "assignments_in_order" in inp:
-        ev = evaluate(r.routine, dict(map(tuple, inp["assignments_in_order"]))).routine
+        impls = {"f": (lambda x: x * x + 1), "g": (lambda x: 2 * x + 3), "h": (lambda x, y: x + 2 * y)}
+        fm = inp.get("functions_map")
+        fm = {k: impls[k] for k in fm} if isinstance(fm, list) else None
+        ev = evaluate(r.routine, dict(map(tuple, inp["assignments_in_order"])), functions_map=fm).routine
         for p, a in walk(ev):
             for k, x in exprs(a):
                 print(".".join(p) or "root", k, "=", x)
